@@ -10,7 +10,7 @@ import (
 
 // The signature manager has a single record kind: SIG_INFO ‖ id (variable length).
 func zz17Record(tag string) zz17Rec {
-	id := zz17VarBytes(tag+".id", []int{0, 1, 2, 32})
+	id := zz17VarBytes(tag+".id", zz17Lens(32))
 	keys := zz17Keys(func(ns *native.NativeService) { putSigInfo(ns, id, &SigInfo{SigInfo: map[string][]byte{}}) })
 	return zz17Rec{kind: 0, key: zz17Pick(keys, 0, SIG_INFO, 20+len(SIG_INFO)+len(id)), params: [][]byte{id}}
 }
